@@ -37,8 +37,7 @@ def run(ctx):
                 ws.append(dict(kind="wl", wl=wl, maxTrials=0, failRateOne=0, mode="paths", paths=4, maxLeaves=0, tag="long-paths", reps=0))
     wfiles, wcells, wleaves = wlfam.run_scenarios(ctx, ws, "c06w")
     wverd, wdec = wlfam.validate(ctx, wfiles)
-    if (cdec < max(5, ccells // 4) or wdec < max(5, wcells // 5)) and not ctx.violations:
-        raise vlib.Undecided("too few cells gave an exact distribution: %d/%d character, %d/%d wordlist" % (cdec, ccells, wdec, wcells))
+    too_few = cdec < max(5, ccells // 4) or wdec < max(5, wcells // 5)
     ctx.evaluations = cleaves + wleaves
     ctx.nontrivial = cdec + wdec
     ctx.cover.update(char_cells=ccells, char_leaves=cleaves, char_cells_decided=cdec, wl_cells=wcells, wl_leaves=wleaves, wl_cells_decided=wdec)
@@ -48,6 +47,8 @@ def run(ctx):
     ctx.absorb(wverd, wfiles, wlfam.describe_wl)
     from checks import drawfam
     drawfam.draw_conformance(ctx, sorted(charfam.bounds_seen(cfiles) | wlfam.bounds_seen(wfiles)), "the recipes of this check")
+    if too_few and not ctx.violations:
+        raise vlib.Undecided("too few cells gave an exact distribution: %d/%d character, %d/%d wordlist" % (cdec, ccells, wdec, wcells))
     ctx.assumptions += ["C01 (index -> probability 1/n)", "float32 tolerance: 2 ulp (character recipes), 4 ulp (wordlist formula)",
                         "a caller-written separator function that under-reports its own entropy makes the recipe's value a lower bound only"]
     return ("exact max-probability per recipe from %d complete choice trees of the real code (%d leaves) compared by TLC with 2^-Entropy()"
